@@ -157,6 +157,7 @@ fn loop_case(rng: &mut Rng, ctx: &mut Ctx, idx: u64) {
     lb.probe_after_end = true;
     lb.reset_response_after = reset_after;
     let stats = lb.stats.clone();
+    let resp_head_tap = lb.resp_tap.clone();
     let mut client = VerifClient::new(lb);
     for e in crate::refc::Enc::compressed() {
         client = client.accept_compressed(e.tonic().unwrap());
@@ -201,7 +202,8 @@ fn loop_case(rng: &mut Rng, ctx: &mut Ctx, idx: u64) {
             ctx.violation("messages-differ", format!("client saw {} messages that are not a prefix of the handler's {}", view.msgs.len(), want.len()));
         }
         // trailers-only responses carry their status in the head: the reset changes nothing there
-        let trailers_only = script.end.is_some() && (!streaming_resp || script.fail_up_front);
+        // (whether a response is trailers-only is the server's choice, so it is read off the wire)
+        let trailers_only = resp_head_tap.lock().unwrap().first().map(|p| p.headers.contains_key("grpc-status")).unwrap_or(false);
         let ended_ok = view.call_err.is_none() && matches!(view.end, Some(Ok(())));
         if view.finished && ended_ok && !trailers_only {
             ctx.violation("success-without-outcome", format!("the response stream was reset after {} DATA frame(s), before any status arrived, and the client reports success ({} messages)", reset_after.unwrap(), view.msgs.len()));
